@@ -348,6 +348,48 @@ OtherLiteral ==
                 /\ svVar' = PropV("lit", p.name)
     /\ Same
 
+(***************************************************************************)
+(* The four deviations of C11 at a NESTED protocol object.  Every           *)
+(* structure is a root of its own, so a structure function that is          *)
+(* compositional is already covered there; a hand-written hook for a        *)
+(* nested or recursive position need not be.  OwnDev(ob, j): the JSON       *)
+(* forms of instance ob with one of ITS OWN properties deviating; Dev walks *)
+(* the abstract object and applies OwnDev at one nested instance.  A nested *)
+(* deviation below a union may land on another alternative: only results   *)
+(* that are invalid for the ROOT type count.                                 *)
+(***************************************************************************)
+OwnDev(ob, j) ==
+    LET ps == PropsOf(ob.cls) IN
+    UNION { LET p == ps[i] IN
+            (IF Required(p) /\ ~SemNull(p.type) /\ p.name \in DOMAIN j.f THEN {WithoutKey(j, p.name)} ELSE {})
+            \cup (IF IsLit(p) THEN {WithKey(j, p.name, JStr(s)) : s \in OtherLiterals \ {p.type.value}} ELSE {})
+            \cup {WithKey(j, p.name, b) : b \in {b \in BadEnum(p.type) : ~Valid(b, p.type)}}
+            \cup (IF p.type.kind = "base" /\ p.type.name \in {"integer", "uinteger"}
+                  THEN {WithKey(j, p.name, IntBoundary(p.type.name)[b]) :
+                          b \in {b \in DOMAIN IntBoundary(p.type.name) : ~Valid(IntBoundary(p.type.name)[b], p.type)}}
+                  ELSE {})
+          : i \in DOMAIN ps }
+RECURSIVE Dev(_, _)
+Dev(ob, j) ==
+    CASE ob.k = "inst" /\ j.k = "obj" ->
+            OwnDev(ob, j)
+            \cup UNION { { [j EXCEPT !.f[n] = c] : c \in Dev(ob.p[n], j.f[n]) } : n \in DOMAIN ob.p \cap DOMAIN j.f }
+      [] ob.k \in {"arr", "tup"} /\ j.k = "arr" ->
+            UNION { { [j EXCEPT !.a[i] = c] : c \in Dev(ob.a[i], j.a[i]) } : i \in DOMAIN ob.a \cap DOMAIN j.a }
+      [] ob.k = "map" /\ j.k = "obj" ->
+            UNION { { [j EXCEPT !.f[key] = c] : c \in Dev(ob.f[key], j.f[key]) } : key \in DOMAIN ob.f \cap DOMAIN j.f }
+      [] OTHER -> {}
+NestedDeviation ==
+    /\ CanDeviate /\ svObj.k = "inst"
+    /\ \E n \in DOMAIN svObj.p \cap DOMAIN svW.f :
+          \E c \in Dev(svObj.p[n], svW.f[n]) :
+             LET w2 == [svW EXCEPT !.f[n] = c] IN
+             /\ ~Valid(w2, RootType(svRoot))
+             /\ svW' = w2
+             /\ svVar' = PropV("nested", n)
+    /\ UNCHANGED svObj
+    /\ Same
+
 DropSpecial ==
     /\ CanVary
     /\ \E i \in DOMAIN TopProps(svRoot) : LET p == TopProps(svRoot)[i] IN
@@ -381,7 +423,7 @@ AddNearMissKey ==
     /\ UNCHANGED svObj
     /\ Same
 
-Vary == AddNearMissKey \/ AddUnknownBelowUnion \/ DropRequired \/ IntValue \/ BadEnumValue \/ OtherLiteral \/ DropSpecial \/ AddUnknown
+Vary == NestedDeviation \/ AddNearMissKey \/ AddUnknownBelowUnion \/ DropRequired \/ IntValue \/ BadEnumValue \/ OtherLiteral \/ DropSpecial \/ AddUnknown
 Next == Refine \/ Vary
 Spec == Init /\ [][Next]_vars
 
@@ -399,7 +441,7 @@ GenStrict == Plain => StrictPresent(svW, RootType(svRoot))
 \* the normal form re-read under the intended reading explains itself (C01 is satisfiable here)
 NormalIdem == Plain => RT(svW, svW, RootType(svRoot)) /\ Lossless(svW, svW)
 \* every deviation really is invalid; dropped specials and unknown keys stay valid
-DeviationIsInvalid == svVar.vk \in {"dropreq", "enum", "lit"} => ~Valid(svW, RootType(svRoot))
+DeviationIsInvalid == svVar.vk \in {"dropreq", "enum", "lit", "nested"} => ~Valid(svW, RootType(svRoot))
 TolerantStaysValid == svVar.vk \in {"dropspecial", "unk"} => Valid(svW, RootType(svRoot))
 
 \* printing: one JSON line per distinct state (worker-safe: a single PrintT of one string)
